@@ -47,6 +47,20 @@ impl<V> HashTable<ZobristHash, V> {
     }
 }
 
+#[cfg(inkayaku_verif)]
+impl<V: Copy> HashTable<ZobristHash, V> {
+    pub(crate) fn verif_snapshot(&self) -> (Vec<ZobristHash>, Vec<(ZobristHash, V)>) {
+        let mut map: Vec<(ZobristHash, V)> = self.entry_map.iter().map(|(k, v)| (*k, *v)).collect();
+        map.sort_by_key(|e| e.0);
+        (self.entry_list.iter().copied().collect(), map)
+    }
+    pub(crate) fn verif_put(&mut self, key: ZobristHash, value: V) { self.put(key, value); }
+    pub(crate) fn verif_get(&self, key: ZobristHash) -> Option<V> { self.get(key).copied() }
+    pub(crate) fn verif_clear(&mut self) { self.clear(); }
+    pub(crate) fn verif_len(&self) -> usize { self.len() }
+    pub(crate) fn verif_load_factor(&self) -> f32 { self.load_factor() }
+}
+
 // #[cfg(test)]
 // mod test {
 //     use crate::inkayaku::table::HashTable;
